@@ -659,6 +659,21 @@ func c18TxDatabase(c *Ctx) {
 				"a statement reaches a session transaction without the check that the session is still using the transaction's database (permission is evaluated on the session's database): "+c.witnessStr(w))
 		}
 		c.ruleErrChecked(r, f, "checkTxDatabase", chk, 1)
+		// the gate is evaluated with the method name of the matching non-transactional RPC: executing needs a
+		// write-class row (no read-only permission), querying the SQLQuery row
+		for i, in := range sites(f, chk) {
+			args := callOf(in).Args
+			m := ""
+			if len(args) > 0 {
+				m = strings.TrimPrefix(desc(args[len(args)-1]), "const:")
+				m = strings.Trim(m, "\"")
+			}
+			want := "SQLQuery"
+			if len(sites(f, callTo("(pkg/server/sessions/internal/transactions.Transaction).SQLExec"))) > 0 {
+				want = "SQLExec"
+			}
+			c.check(m == want, r, fmt.Sprintf("%s:gate-method#%d", fnName(f), i), c.pos(in.Pos()), "gated as "+want, "a handler that "+map[string]string{"SQLExec": "executes statements", "SQLQuery": "queries"}[want]+" on a session transaction is gated as "+m+" instead of "+want)
+		}
 	}
 	if n < 2 {
 		c.undecided(r, "floor", fmt.Sprintf("%d uses of a session transaction by handlers found (TxSQLExec, TxSQLQuery confirmed by hand)", n))
@@ -668,6 +683,13 @@ func c18TxDatabase(c *Ctx) {
 		q := &pathQ{fn: f, fromEntry: true, to: successReturn, barrier: same}
 		w := q.bypass()
 		c.check(w == nil, r, fnName(f)+":names-equal", c.pos(f.Pos()), "success only on the edge where the session's database name equals the transaction's", "checkTxDatabase can succeed without comparing the two database names: "+c.witnessStr(w))
+		gate := callTo(srvT + "getDBFromCtx")
+		c.ruleMustPass(r, f, nil, "getDBFromCtx", gate, nil, false)
+		c.ruleErrChecked(r, f, "getDBFromCtx", gate, 1)
+		for i, in := range sites(f, gate) {
+			args := callOf(in).Args
+			c.check(len(args) > 0 && desc(args[len(args)-1]) == "param:methodName", r, fmt.Sprintf("%s:gate-forwards-method#%d", fnName(f), i), c.pos(in.Pos()), "the caller's method name reaches the gate", "checkTxDatabase gates with "+desc(args[len(args)-1])+" instead of the caller's method name")
+		}
 	}
 	// the only other way to a transaction's database is through the transaction itself; NewTransaction binds the session's database
 	if f := c.fn("pkg/server/sessions.(*Session).NewTransaction"); f != nil {
